@@ -2,7 +2,7 @@
 import itertools
 
 from tcv import names as N
-from tcv import scratch, worlds
+from tcv import families, scratch, worlds
 from tcv.core import Result, Violation
 from tcv.pool import pmap
 
@@ -11,6 +11,9 @@ GROUPS = ['', 'g', 'xg']
 NAMES = ['a', 'xa']
 UNIVERSE = [N.make(ns, g, n) for ns in NS for g in GROUPS for n in NAMES]
 QUERIES = sorted({q for f in UNIVERSE for q in N.forms(f)}, key=lambda s: (len(s), s))
+# names outside [a-z]+: leading / trailing underscores, digits (all valid identifiers, so attribute access applies)
+ODD_UNIVERSE = [N.make(ns, g, n) for ns in ('', 'n') for g in ('', 'g') for n in ('_raw', '__h', 'a_', 'a1')]
+ODD_QUERIES = sorted({q for f in ODD_UNIVERSE for q in N.forms(f)}, key=lambda s: (len(s), s))
 
 
 def world_for(name_set, reverse=False):
@@ -33,7 +36,8 @@ def world_for(name_set, reverse=False):
     return {'name': 'names', 'tasks': tasks, 'configs': cfgs, 'root': 'top', 'variants': {'v': []}}
 
 
-def check_set(name_set):
+def check_set(name_set, queries=None):
+    queries = queries or QUERIES
     out = []
     evals = 0
     answers = {}
@@ -51,7 +55,7 @@ def check_set(name_set):
                 continue
             all_names = list(name_set) + ['dep']
             dep = ch.tasks['dep']
-            for q in QUERIES + ['dep']:
+            for q in queries + ['dep']:
                 for where, names in (('chain', all_names), ('inputs', list(name_set))):
                     exp = N.resolve(q, names)
                     evals += 1
@@ -149,6 +153,166 @@ def check_nested():
         finally:
             w.dispose()
             scratch.drop(root)
+    return res
+
+
+def check_shared_mounts():
+    """ONE pipeline (x -> d) mounted twice, `as n1` and `as n2`: with equal values the two mountings are one computation (the task
+    objects are shared), with different values they are not. Either way every task is addressable from the chain and from its
+    dependant's inputs by its full name in EITHER mounting and by the short form."""
+    res = Result()
+    for equal in (True, False):
+        tasks = {'X': {'name': 'x', 'params': [families.P('px', default=0)], 'inputs': [], 'data': 'json'},
+                 'D': {'name': 'd', 'params': [], 'inputs': [{'how': 'name', 'ref': 'x'}], 'data': 'json'}}
+        desc = {'name': 'shared-mounts', 'tasks': tasks,
+                'configs': {'pipe': {'medium': 'json', 'tasks': ['X', 'D'], 'values': {}},
+                            'top': {'medium': 'json', 'tasks': [], 'values': {}, 'uses': [{'config': 'pipe', 'as': 'n1'}, {'config': 'pipe', 'as': 'n2'}]}},
+                'root': 'top', 'variants': {'v': []}}
+        if not equal:
+            desc['context'] = {'kind': 'dict', 'data': {}, 'for_namespaces': {'n1': {'px': 1}, 'n2': {'px': 2}}}
+        root = scratch.fresh('c10s')
+        w = worlds.World(desc, root)
+        res.add('evaluations')
+        res.add('chain_worlds')
+        case = {'kind': 'shared-mounts', 'equal': equal}
+        try:
+            ch = w.chain('v', base_dir=root + '/data')
+            for ns in ('n1', 'n2'):
+                target, d = ch.tasks[f'{ns}::x'], ch.tasks[f'{ns}::d']
+                for q in (f'{ns}::x', 'x'):
+                    try:
+                        ok = d.input_tasks[q] is target and q in d.input_tasks
+                    except Exception:  # noqa
+                        ok = False
+                    if not ok:
+                        res.violations.append(Violation('shared-mounts: input not addressable from its dependant by its full name',
+                                                        f'pipeline x -> d mounted as n1 and n2 with {"equal" if equal else "different"} values: {ns}::d.input_tasks[{q!r}] '
+                                                        f'does not give {ns}::x (keys {list(d.input_tasks.keys())})', case))
+        except Exception as e:  # noqa
+            res.violations.append(Violation('shared-mounts: chain cannot be built', f'{type(e).__name__}: {e}', case))
+        finally:
+            w.dispose()
+            scratch.drop(root)
+    return res
+
+
+_CONC_PLANS = [([('item', 'x')], [('item', 'y'), ('in', 'y')]),          # 'x' is ambiguous (g:x, h:x), 'y' resolves to the less nested `y`
+               ([('in', 'g:y')], [('item', 'x'), ('get', 'h:x')]),
+               ([('attr', 'y')], [('attr', 'y'), ('in', 'zz')])]
+
+
+def _conc_job(args):
+    """one plan, the subtree of schedules below `root` (root=None: the default schedule only; returns the subtree roots)"""
+    import tempfile
+    from pathlib import Path
+    import tcv
+    import taskchain.chain as tchain
+    import taskchain.task as ttask
+    from taskchain import Config, Task
+    from tcv import sched
+
+    tcv.quiet_library()
+    pi, bound, root = args
+    pa, pb = _CONC_PLANS[pi]
+
+    class X(Task):
+        class Meta:
+            task_group = 'g'
+            name = 'x'
+
+        def run(self) -> int:
+            return 1
+
+    class X2(Task):
+        class Meta:
+            task_group = 'h'
+            name = 'x'
+
+        def run(self) -> int:
+            return 2
+
+    class Y(Task):
+        def run(self) -> int:
+            return 3
+
+    class GY(Task):
+        class Meta:
+            task_group = 'g'
+            name = 'y'
+
+        def run(self) -> int:
+            return 4
+
+    res = Result()
+    files = (tchain.__file__, ttask.__file__)
+
+    def ask(ch, how, q):
+        try:
+            if how == 'in':
+                return q in ch
+            t = ch[q] if how == 'item' else (ch.get(q) if how == 'get' else getattr(ch, q))
+            return None if t is None else t.fullname
+        except (AttributeError, KeyError):
+            return 'KeyError'   # attribute access reports a missing / ambiguous name its own way
+        except Exception as e:  # noqa
+            return type(e).__name__
+
+    base = Path(tempfile.mkdtemp(prefix='c10c', dir=scratch.root()))
+    roots = []
+    try:
+        seq = Config(base, name='c', data={'tasks': [X, X2, Y, GY]}).chain()
+        want = {'A': [ask(seq, h, q) for h, q in pa], 'B': [ask(seq, h, q) for h, q in pb]}
+
+        def make_run(choices):
+            ch = Config(base, name='c', data={'tasks': [X, X2, Y, GY]}).chain()
+            bodies = [(n, (lambda plan=plan: [ask(ch, h, q) for h, q in plan]), None) for n, plan in (('A', pa), ('B', pb))]
+            return sched.Run(str(base), bodies, choices, horizon=20000, trace_files=files).execute()
+
+        if root is None:
+            first = make_run([])
+            roots = sched.children(first, 0, bound)
+            runs = [first]
+        else:
+            runs = sched.explore(make_run, bound, root=root)
+        outcomes = set()
+        for r in runs:
+            res.add('evaluations')
+            res.add('schedules')
+            res.add('transitions', len(r.points))
+            got = {w.name: (w.result[1] if w.result[0] == 'ok' else repr(w.result)) for w in r.workers}
+            outcomes.add(repr(got))
+            if got != want:
+                res.violations.append(Violation('concurrent lookups: answer differs from the sequential one',
+                                                f'threads A {pa} and B {pb} on one fresh chain, schedule {[p["chosen"] for p in r.points if p["n"] > 1]}: {got}, sequentially {want}',
+                                                {'kind': 'concurrent', 'bound': bound}))
+                break
+        res.coverage['conc_outcomes'] = sorted(outcomes)
+    finally:
+        import shutil
+        shutil.rmtree(base, ignore_errors=True)
+    return res, roots
+
+
+def check_concurrent_lookups(bound=1):
+    """lookups only read: two threads that address tasks of ONE freshly built chain at the same time get the answers a single
+    thread gets. Every interleaving of the two threads at SOURCE-LINE granularity inside taskchain/chain.py and task.py with at most
+    `bound` preemptions (tcv/sched.py, stateless DFS, subtrees in parallel); a fresh chain per execution, so the very first lookup is
+    raced too."""
+    res = Result()
+    jobs = []
+    outcomes = set()
+    # bound 2 costs ~13k executions per plan: the first plan (first-ever lookup raced by a short and an ambiguous query) gets it
+    bounds = [bound] + [min(bound, 1)] * (len(_CONC_PLANS) - 1)
+    for pi, (r, roots) in enumerate(pmap(_conc_job, [(pi, bounds[pi], None) for pi in range(len(_CONC_PLANS))])):
+        outcomes |= set(r.coverage.pop('conc_outcomes', []))
+        res.merge(r)
+        jobs += [(pi, bounds[pi], root) for root in roots]
+    for r, _ in pmap(_conc_job, jobs, chunksize=4):
+        outcomes |= set(r.coverage.pop('conc_outcomes', []))
+        res.merge(r)
+    res.coverage.pop('conc_outcomes', None)
+    res.add('distinct_outcomes', len(outcomes))
+    res.coverage['concurrent_lookups'] = {'plans': len(_CONC_PLANS), 'preemption_bound_per_plan': bounds, 'granularity': 'source line in chain.py / task.py'}
     return res
 
 
@@ -265,7 +429,7 @@ def _job(sets):
     tcv.quiet_library()
     res = Result()
     for s in sets:
-        ev, vs = check_set(s)
+        ev, vs = check_set(s, ODD_QUERIES if s[0] in ODD_UNIVERSE else None)
         res.add('evaluations', ev)
         res.add('transitions', ev)
         res.add('chain_worlds')
@@ -277,6 +441,7 @@ def run(tier, seed):
     sets = [s for k in (1, 2) for s in itertools.combinations(UNIVERSE, k)]
     triples = list(itertools.combinations(UNIVERSE, 3))
     sets += triples if tier != 'quick' else triples[seed % 7::7]
+    sets += [s for k in (1, 2) for s in itertools.combinations(ODD_UNIVERSE, k)]
     res = Result()
     n = 64
     for r in pmap(_job, [sets[i::n] for i in range(n)]):
@@ -284,16 +449,22 @@ def run(tier, seed):
     res.merge(check_nested())
     res.merge(check_run_arguments())
     res.merge(check_optional_ambiguous())
+    res.merge(check_shared_mounts())
+    res.merge(check_concurrent_lookups(1 if tier == 'quick' else 2))
     res.coverage['chain_leg'] = {'name_sets': len(sets), 'universe': len(UNIVERSE), 'queries': len(QUERIES) + 1, 'triples_complete': tier != 'quick'}
     return res
 
 
 def replay(case):
+    if case.get('kind') == 'concurrent':
+        return check_concurrent_lookups(case['bound']).violations
+    if case.get('kind') == 'shared-mounts':
+        return [v for v in check_shared_mounts().violations if v.case == case]
     if case.get('kind') == 'optamb':
         return [v for v in check_optional_ambiguous().violations if v.case == case]
     if case.get('kind') == 'runarg':
         return [v for v in check_run_arguments().violations if v.case == case]
     if case.get('kind') == 'nested':
         return [v for v in check_nested().violations if v.case == case]
-    ev, vs = check_set(tuple(case['names']))
+    ev, vs = check_set(tuple(case['names']), ODD_QUERIES if case['names'][0] in ODD_UNIVERSE else None)
     return vs
